@@ -674,8 +674,8 @@ PROPS["C35"] = dict(family="links", level="model_checking", design_ref="4.3",
                           "link forms: absolute (root...), child or grandchild, missing board, 1-3 underscores with or without a tail, the board itself (by climbing and coming back, and absolute), climb to the common ancestor of a random board and descend. "
                           "Every fourth tree is also written to files by the real d2 binary (dagre) and the href of every linked object is read back from the board's own SVG file. Non-trivial: more than one board and at least one link."),
                     exhaustive=dict(quick=True, thorough=True),
-                    assumptions=["links inside imported files (rebasing onto the importing board) are not generated", "board names are plain identifiers (file-name escaping is C34's matter)",
-                                 "a board's file is recognised by a marker object; scenarios and steps show their base's markers too, so the file with the fewest markers is taken"],
+                    assumptions=["a quarter of the nested boards have their content in a file of their own (name: @file); inside such a file root names the importing board (links are rebased)", "board names are plain identifiers (file-name escaping is C34's matter)",
+                                 "a board's file is recognised by a marker object: the file that shows the board's marker and no marker of a board below it (scenarios and steps show their base's markers too)"],
                     text="Target/Kept are the specification of link resolution; File/Rel of where a link points once boards are files.", note="Trusted: TLC, Json module, the SVG scan (regular expressions on <a href> and <g class>).")
 
 
